@@ -144,25 +144,33 @@ def run(prog, rep):
     # ---- C18.4 -------------------------------------------------------------------------------
     n4 = 0
     for un, u in sorted(prog.units.items()):
-        for fn in sorted(u.functions.values(), key=lambda f: f.loc[0]):
-            k = 0
+        # sites are attributed to the function through which they are entered (inlined views of the unit's roots), and numbered
+        # per callee in source order: moving a site into a static helper does not rename it
+        for fn in sorted(u.roots(skip=tuple(sorted(set(T.fresh) & set(u.functions)))), key=lambda f: f.loc[0]):
             fresh_locals = set()
             for b, i, n in fn.nodes():
                 if n["k"] == "asg":
                     r = strip_casts(n["r"])
                     if r is not None and r["k"] == "call" and r.get("callee") in T.fresh and r.get("callee") not in LIST_TAKERS and strip_casts(n["l"])["k"] == "ref":
                         fresh_locals.add(strip_casts(n["l"])["name"])
+                    if r is not None and r["k"] == "ref" and r["name"].startswith("__ret_") and any(r["name"].startswith("__ret_%s_" % t_) for t_ in T.fresh) \
+                            and strip_casts(n["l"])["k"] == "ref":
+                        fresh_locals.add(strip_casts(n["l"])["name"])
+            sites = []
             for b, i, c in fn.calls():
                 if c.get("callee") in LIST_TAKERS:
                     a = strip_casts(c["args"][LIST_TAKERS[c["callee"]]])
                     direct = a is not None and a["k"] == "call" and a.get("callee") in T.fresh
-                    viaL = a is not None and a["k"] == "ref" and a["name"] in fresh_locals
+                    viaL = a is not None and a["k"] == "ref" and (a["name"] in fresh_locals or any(a["name"].startswith("__ret_%s_" % t_) for t_ in T.fresh))
                     if direct or viaL:
-                        k += 1
-                        n4 += 1
-                        rep.ob("C18.4", fn, "%s#%d" % (c["callee"], k), False,
-                               "line %d: %s is handed to %s; when the list node cannot be allocated the list is returned unchanged and the object is lost (leak), and nothing is reported" %
-                               (line(c), show(a), c["callee"]), c, info=fn.name not in reach)
+                        sites.append((line(c), c["loc"][1] if c.get("loc") else 0, c, a))
+            per = {}
+            for (ln_, col_, c, a) in sorted(sites, key=lambda t: (t[0], t[1])):
+                per[c["callee"]] = per.get(c["callee"], 0) + 1
+                n4 += 1
+                rep.ob("C18.4", fn, "%s#%d" % (c["callee"], per[c["callee"]]), False,
+                       "line %d: %s is handed to %s; when the list node cannot be allocated the list is returned unchanged and the object is lost (leak), and nothing is reported" %
+                       (line(c), show(a), c["callee"]), c, info=fn.name not in reach)
     if n4 == 0:
         rep.ob("C18.4", ("plist.c", "p_list_append"), "none", True, "no freshly acquired object is handed to the silent list functions", None)
 
